@@ -130,3 +130,5 @@ PROPS["C03"]["rule"] += "; third part: the vectorised-Run workloads of C04 with 
 
 for _p in ("C04", "C05", "C14", "C07"):
     PROPS[_p]["rule"] += "; in 20% of the runs the instrumented model kernels also yield before every statement (bounded to 1500 kernel-level scheduling points per run), so that cells/models interleave inside their kernels"
+
+PROPS["C17"]["env"] = {"VERIF_RUN_TIMEOUT_S": 10}
